@@ -6,6 +6,7 @@ import (
 	"encoding/json"
 	"errors"
 	"fmt"
+	"math"
 	"runtime/metrics"
 	"strconv"
 	"strings"
@@ -502,10 +503,10 @@ func TestCheck(t *testing.T) {
 		// each package has its own MaxInputLength, so the five packages can run side by side
 		r.Parallel(int64(len(pkgs)), 1, func(w *vkit.W, plo, phi int64) {
 			for _, pkg := range pkgs[plo:phi] {
-				for _, lim := range []int{0, 1, defaults[pkg], defaults[pkg] + 1, 7} {
+				for _, lim := range []int{0, 1, defaults[pkg], defaults[pkg] + 1, 7, math.MaxInt, math.MaxInt32} {
 					restore := setLimit(pkg, lim)
 					base := lim
-					if base == 0 {
+					if base == 0 || base > 1<<20 { // no limit, or a practically unlimited one: lengths around the default limit
 						base = defaults[pkg]
 					}
 					for _, n := range []int{base - 1, base, base + 1, base * 10, base*10 + 1} {
@@ -653,6 +654,91 @@ func TestCheck(t *testing.T) {
 				}
 			}
 		})
+	})
+
+	// Phase B10: the package-level Parser functions are replaced by functions that fail in ways of their own (a plain error, a
+	// parse error of the other instantiation, a nil-pointer error value, a panic is not among them): the Unmarshal methods that
+	// go through them return normally.
+	r.Phase("B10: UnmarshalText / UnmarshalJSON / json.Unmarshal while the package-level Parser fails with a plain error, a foreign parse error, a typed-nil error", func() {
+		od, or, os, oz, ou := date.Parser, roman.Parser, sem.Parser, size.Parser, uu.Parser
+		defer func() { date.Parser, roman.Parser, sem.Parser, size.Parser, uu.Parser = od, or, os, oz, ou }()
+		plain := errors.New("custom parser says no")
+		for kind := 0; kind < 3; kind++ {
+			kind := kind
+			date.Parser = func(in []byte, r date.Rule) (date.Date, error) {
+				switch kind {
+				case 1:
+					_, err := date.DefaultParser(string(in)+"x", r)
+					return date.Date{}, err
+				case 2:
+					return date.Date{}, (*date.ParseError[[]byte])(nil)
+				}
+				return date.Date{}, plain
+			}
+			roman.Parser = func(in []byte, r roman.Rule) (roman.Number, error) {
+				if kind == 1 {
+					_, err := roman.DefaultParser(string(in)+"?", r)
+					return 0, err
+				}
+				return 0, plain
+			}
+			sem.Parser = func(in []byte, r sem.Rule) (sem.Ver, error) {
+				if kind == 1 {
+					_, err := sem.DefaultParser(string(in)+" ", r)
+					return sem.Ver{}, err
+				}
+				return sem.Ver{}, plain
+			}
+			size.Parser = func(in []byte, r size.Rule) (size.Size, error) {
+				if kind == 1 {
+					_, err := size.DefaultParser(string(in)+"?", r)
+					return 0, err
+				}
+				return 0, plain
+			}
+			uu.Parser = func(in []byte, r uu.Rule) (uu.ID, error) {
+				if kind == 1 {
+					_, err := uu.DefaultParser(string(in)+"?", r)
+					return uu.ID{}, err
+				}
+				return uu.ID{}, plain
+			}
+			r.Serial(func(w *vkit.W) {
+				for _, pkg := range pkgs {
+					for _, v := range append(append([]string{}, valid[pkg]...), "", "x", strings.Repeat("9", 2000)) {
+						c := Case{Pkg: pkg, A: vkit.B(v), Rule: kind, Limit: -1}
+						w.Guard(c, func() {
+							in := []byte(v)
+							q, _ := json.Marshal(v)
+							switch pkg {
+							case "date":
+								var d date.Date
+								_ = d.UnmarshalText(in)
+								_ = json.Unmarshal(q, &d)
+							case "roman":
+								var n roman.Number
+								_ = n.UnmarshalText(in)
+								_ = json.Unmarshal(q, &n)
+							case "sem":
+								var s sem.Ver
+								_ = s.UnmarshalText(in)
+								_ = json.Unmarshal(q, &s)
+							case "size":
+								var s size.Size
+								_ = s.UnmarshalText(in)
+								_ = s.UnmarshalJSON(in)
+								_ = json.Unmarshal(q, &s)
+							case "uu":
+								var id uu.ID
+								_ = id.UnmarshalText(in)
+								_ = json.Unmarshal(q, &id)
+							}
+						})
+						w.EvalRandom(vkit.Hash64("B10", pkg, v, strconv.Itoa(kind)), true)
+					}
+				}
+			})
+		}
 	})
 
 	// Phase B2: the limit is a setting, not a property of the text: the same text is parsed again after MaxInputLength was
